@@ -197,6 +197,11 @@ def gen_pool(rng):
     add('table', {'t': 'serialized', 'fmt': 'fits', 'regions': [
         gen.simple_region(rng, fits_ok, meta_exclude=('component',))
         for _ in range(rng.randint(1, 5))]})
+    add('table', {'t': 'table_variant',
+                  'variant': rng.pick(['lower', 'mixed', 'extra', 'reversed']),
+                  'regions': [gen.simple_region(rng, fits_ok,
+                                                meta_exclude=('component',))
+                              for _ in range(rng.randint(1, 3))]})
     add('bbox', {'t': 'bbox', 'v': [1, 10, 2, 8]})
     add('bbox', {'t': 'bbox', 'v': [-3, 4, 5, 30]})
     add('mask', {'t': 'mask', 'mode': 'center', 'region': gen.simple_region(
@@ -1244,6 +1249,12 @@ def battery_plan():
         op('serialize_fixed', [i], fmt='crtf', kw={'coordsys': 'image'})
         if kind == 'pixreg':
             op('convert_fixed', [i, w, p0, img], what='pix')
+            rich = gen.region_from_tokens(
+                cls, toks, [['text', 'lbl']],
+                [['linewidth', 3], ['color', 'red'], ['fontname', 'times'],
+                 ['fontsize', 12], ['fontweight', 'bold'],
+                 ['fontstyle', 'italic'], ['linestyle', 'dashed']])
+            op('artist_fixed', [add('pixreg', rich)])
         else:
             op('convert_fixed', [i, w, s0], what='sky')
     t = add('table', {'t': 'serialized', 'fmt': 'fits', 'regions': [
@@ -1290,6 +1301,16 @@ def _battery_ops(ex):
             return fn
         s = a.slot(('x',))
         return lambda: [r.to_pixel(w), r.contains(s, w)]
+
+    def artist_fixed(a, op):
+        r = a.slot(('x',))
+
+        def fn():
+            try:
+                return [r.as_artist(), r.as_artist(origin=(1, 2))]
+            except Exception as exc:
+                return repr(exc)[:80]
+        return fn
 
     def formats_fixed(a, op):
         return lambda: [Region.get_formats(), Regions.get_formats()]
@@ -1484,7 +1505,15 @@ def prepare(ctx, fork_call):
     a pristine fork."""
     plan = battery_plan()
     ctx['battery_plan'] = plan
-    ctx['battery'] = fork_call(lambda c: battery_digests(c), dict(ctx), 300)
+    names = fork_call(lambda c: battery_digests(c), dict(ctx), 300)
+    # every entry is evaluated ALONE in its own fork of the pristine image,
+    # so that the expectation does not depend on the other entries either
+    exp = []
+    for k, (nm, _) in enumerate(names):
+        one = fork_call(lambda c, k=k: fpc(battery_digests(c, only=k)),
+                        dict(ctx), 120)
+        exp.append([nm, one])
+    ctx['battery'] = exp
 
 
 def worker_post(plan, res, ctx, fork_call, tier_cfg):
